@@ -66,6 +66,7 @@ func checkC18(c *Ctx) (string, error) {
 	c.Rule("R18.6", "the configuration under construction owns its list storage (never a struct copy of a cached description)", 1)
 	c.Rule("R18.4", "shipped targets/*.json conform to Config (value types, known parents, acyclic inheritance)", 100)
 	c.Rule("R18.5", "no map iteration order reaches a list-valued field or returned list", 1)
+	checkCacheOnlySuccess(c, p)
 
 	cfgT := structOf(lookupNamed(p.Types, "Config"))
 	if cfgT == nil {
